@@ -284,6 +284,7 @@ func runC09(c *Ctx) {
 	if !c.e4Service() {
 		return
 	}
+	c.messagePerFrame("S.message-per-frame")
 	sReader := c.P.Method("service", "connection", "reader")
 	// use after send
 	for _, fn := range []*ssa.Function{sReader} {
@@ -423,4 +424,45 @@ func runC09(c *Ctx) {
 	R.Explain = "May-alias analysis on top of the abstract interpreter's buffer identities: every message the reader role creates (fast path, buffered path, re-request frames, reassembled messages) is checked at creation: its raw bytes, body and BCD phone must not share a backing array " +
 		"(through sub-slicing, bytes.Trim, append's possible in-place growth, joins and loop generalisation) with the Read buffer or with a pending buffer that is truncated and refilled. Plus: no use of a message after it is sent to the writer; identifying header fields are stored only by the decoder. " +
 		"Not decided: writes into delivered buffers through containers whose elements are not tracked (e.g. wiping stored sub-package bodies at close), mutation of reply-related header scalars by the writer."
+}
+
+// messagePerFrame (shared by C04 and C09): every Message the parser builds wraps a JTMessage of its own - created for
+// that frame, inside the loop that extracts frames - or the JTMessage of the message being processed (reassembly).
+func (c *Ctx) messagePerFrame(rule string) {
+	R := c.R
+	R.Rules[rule] = "every message the parser builds from the stream wraps a JTMessage created for that one frame (allocated inside the loop that extracts frames, directly or by a constructor / helper), or - in reassembly - the JTMessage of the message being processed: frames coalesced in one read do not share a decoded header and body"
+	newMsg := c.P.Func("service", "newTerminalMessage")
+	if newMsg == nil {
+		R.Fatal("anchor service.newTerminalMessage not found")
+		return
+	}
+	n := 0
+	for _, fn := range c.RepoFuncs("service") {
+		for _, b := range fn.Blocks {
+			for _, ins := range b.Instrs {
+				call, isC := ins.(*ssa.Call)
+				if !isC || call.Call.StaticCallee() != newMsg || len(call.Call.Args) != 2 {
+					continue
+				}
+				n++
+				ok, why := c.freshPerEvaluation(call.Call.Args[0], call)
+				if !ok {
+					// the JTMessage of a *Message parameter (the message being processed)
+					if root, path := loadPath(call.Call.Args[0]); root != nil && len(path) > 0 && path[len(path)-1] == "JTMessage" {
+						if _, isParam := root.(*ssa.Parameter); isParam && len(path) == 1 {
+							ok, why = true, ""
+						}
+					}
+				}
+				st := report.Discharged
+				if !ok {
+					st = report.Violated
+				}
+				R.Add(rule, shortFn(fn)+" / "+c.constructOf(fn, call), c.P.RelPos(call.Pos()), st, why)
+			}
+		}
+	}
+	if n < 3 {
+		R.Fatal("%s: only %d newTerminalMessage call sites found in service (confirmed by hand: 4)", rule, n)
+	}
 }
